@@ -73,3 +73,30 @@ CASES = [
     S("s-improves-le", "improvement test `<=`", ("        if h_value < best_value - _PRECISION:", "        if h_value <= best_value - _PRECISION:"), file=LG),
     S("s-improves-plus", "improvement test + _PRECISION", ("        if h_value < best_value - _PRECISION:", "        if h_value < best_value + _PRECISION:"), file=LG),
 ]
+
+LEXP = "        L = error + np.sum(lambda_vec * (gamma - self.constraints.bound()))\n"
+MAXC = "        max_constraint = (gamma - self.constraints.bound()).max()\n"
+LOW = "            if L_low_mul < result.L_low:\n"
+WTS = "        self.weights_ = Qs[self.best_iter_]\n"
+
+CASES += [
+    # ---- lifted since L1: the L expression, max_constraint, the L_low test, the weights_ index --------------- refactors
+    R("r-L-commuted", "L: sum first, factors of the summand exchanged", (LEXP, "        L = np.sum((gamma - self.constraints.bound()) * lambda_vec) + error\n"), file=LG),
+    R("r-L-temp", "L: temporary for the penalty", (LEXP, "        penalty = np.sum(lambda_vec * (gamma - self.constraints.bound()))\n        L = error + penalty\n"), file=LG),
+    R("r-maxc-reorder", "max_constraint computed before L (independent statements)", (LEXP + "\n" + MAXC, MAXC + "\n" + LEXP), file=LG),
+    R("r-weights-reorder", "weights_ assigned before best_gap_ (independent statements)",
+      ("        self.best_gap_ = gaps[self.best_iter_]\n" + WTS, WTS + "        self.best_gap_ = gaps[self.best_iter_]\n")),
+    R("r-weights-temp", "weights_ through a temporary index", (WTS, "        chosen = self.best_iter_\n        self.weights_ = Qs[chosen]\n")),
+    # ------------------------------------------------------------------ semantic edits
+    S("s-L-plus-bound", "L with gamma + bound", (LEXP, LEXP.replace("gamma - self", "gamma + self")), file=LG),
+    S("s-L-minus", "L = error - sum", (LEXP, LEXP.replace("error + np.sum", "error - np.sum")), file=LG),
+    S("s-L-nosum-bound", "L without the bound", (LEXP, "        L = error + np.sum(lambda_vec * gamma)\n"), file=LG),
+    S("s-maxc-min", "max_constraint = (...).min()", (MAXC, MAXC.replace(".max()", ".min()")), file=LG),
+    S("s-maxc-nobound", "max_constraint = gamma.max()", (MAXC, "        max_constraint = gamma.max()\n"), file=LG),
+    S("s-maxc-abs", "max_constraint of |violation|", (MAXC, "        max_constraint = (gamma - self.constraints.bound()).abs().max()\n"), file=LG),
+    S("s-llow-le", "L_low update `<=` (same function, other text)", (LOW, LOW.replace("<", "<=")), file=LG),
+    S("s-llow-flipped", "L_low update compares the other way round", (LOW, "            if result.L_low < L_low_mul:\n"), file=LG),
+    S("s-weights-last", "weights_ = Qs[-1]", (WTS, "        self.weights_ = Qs[-1]\n")),
+    S("s-weights-first", "weights_ = Qs[0]", (WTS, "        self.weights_ = Qs[0]\n")),
+    S("s-weights-last-len", "weights_ = Qs[len(Qs) - 1]", (WTS, "        self.weights_ = Qs[len(Qs) - 1]\n")),
+]
